@@ -123,3 +123,19 @@ Theorem C04_request_message_is_the_source : forall r n,
 Proof. exact request_message_is_the_source. Qed.
 Print Assumptions C04_response_message_is_the_source.
 Print Assumptions C04_request_message_is_the_source.
+
+(* the chunk framing: the header of every chunk and the last chunk are the translated chunk_header::to_string() /
+   last_chunk::to_string(); the start line of a head is the translated to_string() of the line (see Properties_C08.v) *)
+Theorem C04_chunk_header_string_is_the_source : forall size ext,
+  xrun (mk_xenv [to_hex_string size; ext] 0 0 0) chunk_header_to_string_src = Some (chunk_header_string size ext).
+Proof. exact chunk_header_string_is_the_source. Qed.
+Theorem C04_last_chunk_string_is_the_source : forall ext trailers,
+  xrun (mk_xenv [ext; trailers] 0 0 0) last_chunk_to_string_src = Some (last_chunk_string ext trailers).
+Proof. exact last_chunk_string_is_the_source. Qed.
+Theorem C04_response_head_is_the_source : forall r n,
+  exists line, xrun (mk_xenv [rs_reason r] (rs_major r) (rs_minor r) (rs_status r)) response_line_to_string_src = Some line
+            /\ srun (mk_senv line (rs_headers r) (rs_status r) n) tx_response_message_src = Some (response_message r n).
+Proof. exact response_head_is_the_source. Qed.
+Print Assumptions C04_chunk_header_string_is_the_source.
+Print Assumptions C04_last_chunk_string_is_the_source.
+Print Assumptions C04_response_head_is_the_source.
